@@ -155,6 +155,9 @@ func (o *nodeOutputJSON) fromOutput(out *Output) error {
 }
 
 func (o *nodeOutputJSON) toOutput() (*Output, error) {
+	if o == nil || o.ScriptPubKey == nil {
+		return nil, errors.New("output has no scriptPubKey")
+	}
 	out := &Output{}
 	s, err := bscript.NewFromHexString(o.ScriptPubKey.Hex)
 	if err != nil {
@@ -167,16 +170,21 @@ func (o *nodeOutputJSON) toOutput() (*Output, error) {
 }
 
 func (i *nodeInputJSON) toInput() (*Input, error) {
-	input := &Input{}
-	s, err := bscript.NewFromHexString(i.ScriptSig.Hex)
-	if err != nil {
-		return nil, err
+	if i == nil {
+		return nil, errors.New("input is null")
 	}
-
-	input.UnlockingScript = s
+	input := &Input{}
+	// an input without scriptSig has not been signed yet
+	if i.ScriptSig != nil {
+		s, err := bscript.NewFromHexString(i.ScriptSig.Hex)
+		if err != nil {
+			return nil, err
+		}
+		input.UnlockingScript = s
+	}
 	input.PreviousTxOutIndex = i.Vout
 	input.SequenceNumber = i.Sequence
-	if err = input.PreviousTxIDAddStr(i.TxID); err != nil {
+	if err := input.PreviousTxIDAddStr(i.TxID); err != nil {
 		return nil, err
 	}
 
